@@ -92,7 +92,7 @@ PROACTIVE = {
     'C18': [['c18-upcast']],
     'C16': [['c16-builders'], ['c16-subst']],
     'C10': [['c10-sanity'], ['c10-resolve'], ['c10-mixed']],
-    'C11': [['c11-contains']],
+    'C11': [['c11-contains'], ['c11-validate']],
     'C12': [['c12-primex', '2000']],
 }
 
